@@ -67,7 +67,7 @@ def fidelity(build, seed, n=60):
                 world = case_world(mod, seed, i, "quick")
                 plans = mod.build_plans(world)
                 for k, plan in enumerate(plans[:3]):
-                    a = dict(plan, cfg=dict(plan.get("cfg", {}), shuffle=True, dtype_unknown=True, short_reads=3, fill=0xA5, passthrough=False), id="a")
+                    a = dict(plan, cfg=dict(plan.get("cfg", {}), shuffle=True, dtype_unknown=True, short_reads=3, fill=0xA5, errno_noise=True, passthrough=False), id="a")
                     b = dict(plan, cfg=dict(plan.get("cfg", {}), passthrough=True), id="b")
                     ra, rb = ex.run(a), ex.run(b)
                     total += 1
